@@ -117,6 +117,8 @@ def run(chk: Check, proj: Project) -> None:
     s1a_publication(chk, proj, w, reach)
     s1a_nodes(chk, proj, w, reach)
     s1a_reentrant(chk, proj, w)
+    s1a_parsed_values(chk, proj, w)
+    s1i_shared_instances(chk, proj, w)
     chk.call_sites = w.cg.n_calls
 
 
@@ -515,6 +517,109 @@ def s1a_reentrant(chk: Check, proj: Project, w) -> None:
         else:
             chk.holds("S1-A3", key, gm.loc(g), f"no raise in the helper is conditional on {sorted(out_fields)} being set (re-entry recomputes the same value)")
     chk.floor("S1-A3", n, 1)
+
+
+# instance attributes of Component written outside __init__ that are reviewed as harmless when the instance is shared
+I_BENIGN = {
+    "_types": "memo of type hints derived from the CLASS only; every thread stores an equal value",
+}
+
+
+def s1i_shared_instances(chk: Check, proj: Project, w) -> None:
+    chk.rule("S1-I", "an instance that the library itself hands to several threads (the component captured by the view callable of as_view()) keeps no per-render state on itself, unless that state is thread-confined (threading.local)")
+    m = proj.mod("component")
+    cls = m.cls("Component")
+    av = next((x for x in cls.body if isinstance(x, ast.FunctionDef) and x.name == "as_view"), None)
+    if av is None:
+        raise AnalysisError("anchor vanished: Component.as_view")
+    chk.analysed(fkey(m, av))
+    # publication: a local that may hold an instance flows into the returned view factory
+    inst = {t.id for st in stmts(av) for t, v in assign_targets(st) if isinstance(t, ast.Name) and v is not None and (isinstance(v, ast.Call) or (isinstance(v, ast.Name) and v.id in params(av)))}
+    pub = [c for c in calls(av) if isinstance(c.func, ast.Attribute) and c.func.attr == "as_view" and any(isinstance(k.value, ast.Name) and k.value.id in inst for k in c.keywords)]
+    chk.ob("S1-I", "component:Component.as_view:publication", m.loc(pub[0]) if pub else m.loc(av), True,
+           f"`{short(pub[0])}` captures one instance for all requests" if pub else "as_view() does not capture a component instance (one instance per request)", nontrivial=False)
+    if not pub:
+        return
+    init = next((x for x in cls.body if isinstance(x, ast.FunctionDef) and x.name == "__init__"), None)
+    tl_fields = {t.attr for st in stmts(init) for t, v in assign_targets(st) if isinstance(t, ast.Attribute) and isinstance(v, ast.Call) and (dotted(v.func) or "").endswith("local")} if init else set()
+    # a class-level threading.local confines to the thread as well (it is shared between instances, which is C14's concern)
+    tl_fields |= {t.id for st in cls.body if isinstance(st, (ast.Assign, ast.AnnAssign)) for t, v in assign_targets(st) if isinstance(t, ast.Name) and isinstance(v, ast.Call) and (dotted(v.func) or "").endswith("local")}
+    props = {x.name: x for x in cls.body if isinstance(x, ast.FunctionDef) and any((dotted(d) or "") == "property" for d in x.decorator_list)}
+    confined = {name for name, fn in props.items() if any(isinstance(y, ast.Attribute) and isinstance(y.value, ast.Name) and y.value.id == "self" and y.attr in tl_fields for y in ast.walk(fn))}
+    MUT = ("append", "appendleft", "pop", "popleft", "insert", "extend", "add", "update", "clear", "remove", "discard", "setdefault")
+    written: Dict[str, ast.AST] = {}
+    for fn in cls.body:
+        if not isinstance(fn, ast.FunctionDef) or fn.name in ("__init__", "__init_subclass__"):
+            continue
+        for x in ast.walk(fn):
+            if isinstance(x, ast.Attribute) and isinstance(x.ctx, (ast.Store, ast.Del)) and isinstance(x.value, ast.Name) and x.value.id == "self":
+                written.setdefault(x.attr, x)
+            if isinstance(x, ast.Call) and isinstance(x.func, ast.Attribute) and x.func.attr in MUT and isinstance(x.func.value, ast.Attribute) and isinstance(x.func.value.value, ast.Name) and x.func.value.value.id == "self":
+                written.setdefault(x.func.value.attr, x)
+    n = 0
+    for attr, site in sorted(written.items()):
+        n += 1
+        key = f"component:Component.{attr}:thread-confined"
+        if attr in confined:
+            chk.holds("S1-I", key, m.loc(site), f"`self.{attr}` is a property over a threading.local created in __init__: each thread has its own")
+        elif attr in I_BENIGN:
+            chk.holds("S1-I", key, m.loc(site), f"reviewed: {I_BENIGN[attr]}", nontrivial=False)
+        elif attr in tl_fields:
+            chk.holds("S1-I", key, m.loc(site), "the thread-local holder itself")
+        else:
+            chk.violated("S1-I", key, m.loc(site), f"`{short(enclosing_stmt(site))}` keeps per-render state on the component object, and as_view() shares one object between all request threads: two requests whose renders overlap read each other's `self.input` / `self.id` / inject() context")
+    chk.floor("S1-I", n, 1)
+
+
+def s1a_parsed_values(chk: Check, proj: Project, w) -> None:
+    chk.rule("S1-A4", "parsed tag values hang off cached template Nodes and are shared by all threads: after construction their methods write nothing but their own flag-guarded memo field - never a field of a part / entry / child (not even temporarily)")
+    m = proj.mod("util.tag_parser")
+    n = 0
+    for q, c in sorted(m.defs.items()):
+        if not isinstance(c, ast.ClassDef):
+            continue
+        for f in c.body:
+            if not isinstance(f, ast.FunctionDef) or f.name in ("__init__", "__post_init__", "__new__"):
+                continue
+            n += 1
+            chk.analysed(fkey(m, f))
+            # locals that alias something reachable from self
+            alias: Set[str] = set()
+            for _ in range(2):
+                for st in stmts(f):
+                    for t, v in assign_targets(st):
+                        if isinstance(t, ast.Name) and v is not None:
+                            roots = {x.id for x in ast.walk(v) if isinstance(x, ast.Name)}
+                            if ("self" in roots or roots & alias) and not isinstance(v, (ast.Call, ast.JoinedStr, ast.Constant)):
+                                alias.add(t.id)
+                    if isinstance(st, ast.For):
+                        roots = {x.id for x in ast.walk(st.iter) if isinstance(x, ast.Name)}
+                        if "self" in roots or roots & alias:
+                            alias |= {x.id for x in ast.walk(st.target) if isinstance(x, ast.Name)}
+            guards = set()
+            for st in f.body:
+                if isinstance(st, ast.If) and always_exits(st.body):
+                    guards |= {x.attr for x in ast.walk(st.test) if isinstance(x, ast.Attribute) and isinstance(x.value, ast.Name) and x.value.id == "self"}
+            bad = None
+            for x in body_walk(f):
+                if isinstance(x, (ast.Attribute, ast.Subscript)) and isinstance(x.ctx, (ast.Store, ast.Del)):
+                    root = x.value
+                    direct_self = isinstance(x, ast.Attribute) and isinstance(root, ast.Name) and root.id == "self"
+                    while isinstance(root, (ast.Attribute, ast.Subscript)):
+                        root = root.value
+                    if not isinstance(root, ast.Name):
+                        continue
+                    if direct_self:
+                        if x.attr not in guards:
+                            bad = (x, "a field that is not the method's flag-guarded memo")
+                    elif root.id == "self" or root.id in alias:
+                        bad = (x, "a field of an object reachable from the shared value")
+            key = f"util.tag_parser:{q}.{f.name}:no-shared-write"
+            if bad:
+                chk.violated("S1-A4", key, m.loc(bad[0][0] if isinstance(bad[0], tuple) else bad[0]), f"`{short(enclosing_stmt(bad[0]))}` writes {bad[1]}: the value belongs to a Node of a cached Template, so another thread that resolves the same tag in between sees the intermediate state (e.g. a spread marker temporarily cleared)")
+            else:
+                chk.holds("S1-A4", key, m.loc(f), "writes only its own guarded memo field (or nothing)")
+    chk.floor("S1-A4", n, 8)
 
 
 def s1a_nodes(chk: Check, proj: Project, w, reach) -> None:
